@@ -62,6 +62,9 @@ class Run:
     def violation(self, record):
         record = dict(record)
         record.setdefault("property", self.pid)
+        self.nviol = getattr(self, "nviol", 0) + 1
+        if self.nviol > 40:          # enough replay files: keep counting, stop writing
+            return
         path = write_replay(self.pid, record)
         if path not in self.violations:
             self.violations.append(path)
@@ -93,7 +96,7 @@ class Run:
             self.cov.pop("states")
             self.cov.pop("transitions")
         ev = dict(property_id=self.pid, tier=self.tier, seed=seed(), level=level, coverage=self.cov,
-                  assumptions=self.assumptions, wall_s=self.timer.s(), violations=len(self.violations))
+                  assumptions=self.assumptions, wall_s=self.timer.s(), violations=max(len(self.violations), getattr(self, "nviol", 0)))
         if self.machinery_error:
             ev["machinery_error"] = self.machinery_error
         with open(os.path.join(EVID, f"{self.pid}.json"), "w") as f:
